@@ -25,7 +25,20 @@ type casChild struct {
 	Deferred bool `json:"deferred,omitempty"` // the child monitor is created in the action, its event is added later by another goroutine
 }
 
+// extremePrios: rule priorities whose differences do not fit an int (selected by
+// casRule.PrioX so that plans stay exact when they travel as JSON numbers).
+var extremePrios = []int{0, math.MinInt64, math.MaxInt64, -1, 1, math.MaxInt64 - 1, math.MinInt64 + 1}
+
+// P is the priority the rule is registered with.
+func (ru casRule) P() int {
+	if ru.PrioX > 0 && ru.PrioX < len(extremePrios) {
+		return extremePrios[ru.PrioX]
+	}
+	return ru.Prio
+}
+
 type casRule struct {
+	PrioX    int        `json:"priox,omitempty"` // > 0: index into extremePrios, overrides Prio
 	Name     string     `json:"name"`
 	Kind     int        `json:"kind"`
 	Prio     int        `json:"prio"`
@@ -125,7 +138,7 @@ func casGen(r *simrt.RNG, tier string) interface{} {
 				ru.Prio = r.Intn(7) - 3 // any integer orders rules, also negative ones
 			}
 			if extremePrio && r.Bool(0.7) {
-				ru.Prio = []int{math.MinInt64, math.MaxInt64, -1, 0, 1, math.MaxInt64 - 1, math.MinInt64 + 1}[r.Intn(7)]
+				ru.PrioX = 1 + r.Intn(len(extremePrios)-1)
 			}
 			nr++
 			ru.Fail = r.Bool(0.25)
@@ -325,6 +338,11 @@ func casShrink(pi interface{}) []interface{} {
 		if ru.Prio > 0 {
 			q := clone()
 			q.Rules[i].Prio = 0
+			out = append(out, q)
+		}
+		if ru.PrioX > 0 {
+			q := clone()
+			q.Rules[i].PrioX = 0
 			out = append(out, q)
 		}
 	}
@@ -712,7 +730,7 @@ func casRun(p *casPlan, prop string) {
 			sm = []string{}
 		}
 		r := &engine.Rule{Name: ru.Name, KindMatch: []string{strings.Join(kindName(ru.Kind), ".")}, ScopeMatch: sm,
-			Priority: ru.Prio, Action: st.action(i)}
+			Priority: ru.P(), Action: st.action(i)}
 		if err := proc.AddRule(r); err != nil {
 			simrt.Fail("oracle:add-rule", "add-rule", "AddRule: %v", err)
 		}
@@ -812,11 +830,11 @@ func (st *casState) checkEventActions(e *casEvent, when string) {
 				st.p.Rules[e.actions[firstFail].rule].Name, e.id, len(e.actions)-1-firstFail)
 		}
 		// every rule with a strictly lower priority number than the failing one must have run
-		fp := st.p.Rules[e.actions[firstFail].rule].Prio
+		fp := st.p.Rules[e.actions[firstFail].rule].P()
 		for _, ri := range rules {
-			if st.p.Rules[ri].Prio < fp && count[ri] != 1 {
+			if st.p.Rules[ri].P() < fp && count[ri] != 1 {
 				simrt.Fail("oracle:rule-not-run", "rule-not-run/before-failure", "%s: rule %s (priority %d) did not run for event %d although the first failure was at priority %d",
-					when, st.p.Rules[ri].Name, st.p.Rules[ri].Prio, e.id, fp)
+					when, st.p.Rules[ri].Name, st.p.Rules[ri].P(), e.id, fp)
 			}
 		}
 		return
@@ -939,9 +957,9 @@ func (st *casState) checkRuleOrder(e *casEvent) {
 		if b.start < a.end {
 			simrt.Fail("oracle:rule-order", "rule-order/overlap", "actions %s and %s of event %d overlap", st.p.Rules[a.rule].Name, st.p.Rules[b.rule].Name, e.id)
 		}
-		if st.p.Rules[b.rule].Prio < st.p.Rules[a.rule].Prio {
+		if st.p.Rules[b.rule].P() < st.p.Rules[a.rule].P() {
 			simrt.Fail("oracle:rule-order", "rule-order/priority", "event %d: rule %s (priority %d) ran after rule %s (priority %d)", e.id,
-				st.p.Rules[b.rule].Name, st.p.Rules[b.rule].Prio, st.p.Rules[a.rule].Name, st.p.Rules[a.rule].Prio)
+				st.p.Rules[b.rule].Name, st.p.Rules[b.rule].P(), st.p.Rules[a.rule].Name, st.p.Rules[a.rule].P())
 		}
 	}
 }
